@@ -14,11 +14,19 @@ def writer_layout(ctx, fi: FuncInfo):
     prog = ctx.prog
     nodep = fi.params[0]
     # j = {node.name: []}
-    holder, name_expr = None, None
+    holder, name_expr, body_list = None, None, None
+    empty_lists = {n.targets[0].id for n in ast.walk(fi.node) if isinstance(n, ast.Assign) and len(n.targets) == 1 and isinstance(n.targets[0], ast.Name)
+                   and ((isinstance(n.value, ast.List) and not n.value.elts) or (isinstance(n.value, ast.Call) and isinstance(n.value.func, ast.Name)
+                                                                                  and n.value.func.id == "list" and not n.value.args))}
     for n in ast.walk(fi.node):
         if isinstance(n, ast.Assign) and len(n.targets) == 1 and isinstance(n.targets[0], ast.Name) and isinstance(n.value, ast.Dict) \
-                and len(n.value.keys) == 1 and isinstance(n.value.values[0], ast.List) and not n.value.values[0].elts:
-            holder, name_expr = n.targets[0].id, n.value.keys[0]
+                and len(n.value.keys) == 1:
+            v = n.value.values[0]
+            if isinstance(v, ast.List) and not v.elts:
+                holder, name_expr = n.targets[0].id, n.value.keys[0]
+            elif isinstance(v, ast.Name) and v.id in empty_lists:
+                # body = []; j = {node.name: body}: appends go to the local list
+                holder, name_expr, body_list = n.targets[0].id, n.value.keys[0], v.id
     if holder is None:
         # the whole document built as one literal: {node.name: [{key: value}, ...]}
         for n in ast.walk(fi.node):
@@ -38,7 +46,8 @@ def writer_layout(ctx, fi: FuncInfo):
             if isinstance(s, ast.Expr) and isinstance(s.value, ast.Call) and isinstance(s.value.func, ast.Attribute) and s.value.func.attr in ("append", "insert"):
                 c = s.value
                 tgt = c.func.value
-                if isinstance(tgt, ast.Subscript) and isinstance(tgt.value, ast.Name) and tgt.value.id == holder and c.args:
+                if ((isinstance(tgt, ast.Subscript) and isinstance(tgt.value, ast.Name) and tgt.value.id == holder)
+                        or (body_list is not None and isinstance(tgt, ast.Name) and tgt.id == body_list)) and c.args:
                     a = c.args[-1]
                     if isinstance(a, ast.Dict) and len(a.keys) == 1:
                         k = prog.const(fi.module, a.keys[0])
@@ -52,7 +61,8 @@ def writer_layout(ctx, fi: FuncInfo):
                 # appends under control flow make the layout position-dependent on data: look inside only to detect them
                 for n in ast.walk(s):
                     if isinstance(n, ast.Call) and isinstance(n.func, ast.Attribute) and n.func.attr in ("append", "insert") \
-                            and isinstance(n.func.value, ast.Subscript) and isinstance(n.func.value.value, ast.Name) and n.func.value.value.id == holder:
+                            and ((isinstance(n.func.value, ast.Subscript) and isinstance(n.func.value.value, ast.Name) and n.func.value.value.id == holder)
+                                 or (body_list is not None and isinstance(n.func.value, ast.Name) and n.func.value.id == body_list)):
                         out.append(("?conditional", None, s))
     visit(fi.node.body)
     return out, name_expr, holder
